@@ -92,6 +92,7 @@ pub fn profile() -> Profile {
     p.net_w = [45, 25, 30, 0, 0, 0, 0, 0, 0];
     p.p_mut = 25;
     p.grandfathered_faucet = true;
+    p.warp = true;
     p
 }
 
@@ -101,7 +102,7 @@ pub fn run(ctx: &Ctx) -> (Outcome, String, Option<bool>) {
         p.max_steps = 30;
         p.max_txs = 10;
     }
-    let out = super::hist::run_histories(ctx, "histories", p, ctx.scale(1500, 15000), C20::default);
+    let out = super::hist::run_histories(ctx, "histories", p, ctx.scale(900, 9000), C20::default);
     let rule = "Generated histories on Custom02/Custom08 (TIP-906 active from genesis) and Testnet (30%; a share of them fast-forwarded with empty blocks to just below height 500 so that the activation is crossed with coins in place): all transaction kinds, child-first batches, pool settlements, proposer rewards, faucet markers. Oracle: invariant read through the cfg(melstf_verif) view after genesis, every accepted batch, every seal and every block opening: the raw coin tree is partitioned into coin entries and count entries; for every covenant hash the count entry equals the number of coin entries, no count entry exists without coins, none exist before activation, and no unexplained entry exists. Non-trivial = history with >=1 pool settlement or proposer reward and >=1 spend; distinct by the sequence of coin roots.".to_string();
     (out, rule, None)
 }
